@@ -125,8 +125,9 @@ class Registry:
 
 
 class Run:
-    def __init__(self, funcs: Registry, shared: dict | None = None):
+    def __init__(self, funcs: Registry, shared: dict | None = None, base: int = 0):
         self.shared = shared or {}
+        self.base = base            # node identities of the two builds of a case are kept apart
         self.node_id = Registry()
         self.funcs = funcs
         self.actions: list[tuple[str, Action]] = []     # every action that exists, in creation order
@@ -174,6 +175,12 @@ class Run:
             e["B2"] = B.map(CALL["par2"])
         if "Y" in refs:         # a generator source: one node with three outputs, spread over the dimension y
             e["Y"] = from_source([srcD0], yields=("y", [0, 1, 2]), dims=["x"], coords={"x": [0]})
+        if "S1" in refs:        # source arrays whose elements share the payload (same callable object, same static arguments)
+            e["S1"] = from_source([srcA0, srcA0, srcA0], dims=["x"], coords={"x": [0, 1, 2]})
+        if "S2" in refs:
+            e["S2"] = from_source([[srcA0, srcA0], [srcA0, srcA1]], dims=["x", "y"], coords={"x": [0, 1], "y": [0, 1]})
+        if "S3" in refs:
+            e["S3"] = from_source([CALL["spar1"], functools.partial(h, 1), CALL["spar2"]], dims=["x"], coords={"x": [0, 1, 2]})
         if "E" in refs:
             e["E"] = from_source([srcE0, srcE1, srcE2, srcE3], dims=["x"], coords={"x": [0, 1, 2, 3]})
         if any(r[:1] in ("F", "G", "Z") for r in refs):          # slices that keep the selected label as a scalar coordinate
@@ -297,9 +304,10 @@ class Run:
         for n in seen.values():
             func, args, kwargs = n.payload
             out.append({"name": str(n.name), "fname": str(getattr(func, "__name__", "")), "fid": self.funcs(func),
-                        "args": repr(list(args)), "kwargs": repr(sorted(kwargs.items())),
+                        "args": repr(list(args)), "kwargs": repr(sorted(kwargs.items())), "id": self.base + self.node_id(n),
+                        "ins": [[str(iname), self.base + self.node_id(i.parent), str(i.name)] for iname, i in n.inputs.items()],
                         "inputs": [f"{iname}={i.parent.name}.{i.name}" for iname, i in n.inputs.items()]})
-        return sorted(out, key=lambda d: (d["name"], d["fid"], d["args"], d["kwargs"], d["inputs"]))
+        return sorted(out, key=lambda d: (d["name"], d["fid"], d["args"], d["kwargs"], d["inputs"], d["id"]))
 
 
 def union(run: Run, how: str, actions: list) -> tuple[list[dict], list[dict], list[str]]:
@@ -342,8 +350,8 @@ def observe(case: dict) -> dict:
     pres, unis, uninames = [], [], []
     shared = payloads()
     refs = {op["o"] for op in list(case["p"]) + list(case["q"])} | {case["start"]}
-    for _ in range(2):                      # two independent builds of the same case
-        run = Run(funcs, shared)
+    for b in range(2):                      # two independent builds of the same case
+        run = Run(funcs, shared, (b + 1) * 100000)
         if case["kind"] == "sources":
             names = run.sources(case)
         else:
